@@ -241,11 +241,39 @@ def call_name(ex, name, pos, kw, st, fr, e):
         if x.kind == 'ref' and x.ty.cls == 'list':
             return [(SetOf(x), st)]
         raise Unsupported('set()')
+    if name == 'list' and pos and isinstance(pos[0], DictView):
+        # list(d.items()) / list(d.keys()) / list(d.values()): snapshot of the dictionary in insertion order
+        view = pos[0]
+        d = view.d
+        st.assume(*sym.dict_wf(h, d.t))
+        keys, n = h.dkeys(d.t), h.dlen(d.t)
+        i = z3.Int(f'dv{next(sym._counter)}')
+        kty = d.ty.key
+        karrs = [keys]           # keys are references
+        varrs = [sym.defarray(st, i, a[keys[i]], 'dvv') for a in h.darrs(d.t, d.ty.val)]
+        if view.what == 'keys':
+            return [(ex.new_list(st, kty, n, karrs), st)]
+        if view.what == 'values':
+            return [(ex.new_list(st, d.ty.val, n, varrs), st)]
+        ety = Ty('tuple', items=[kty, d.ty.val])
+        return [(ex.new_list(st, ety, n, karrs + varrs), st)]
     if name == 'list':
         x = pos[0]
         if x.kind == 'ref' and x.ty.cls == 'list':
             return [(ex.new_list(st, x.ty.elem, h.llen(x.t), h.larrs(x.t, x.ty.elem)), st)]
         raise Unsupported('list()')
+    if name == 'dict':
+        if not pos and not kw:
+            raise Unsupported('dict() without a declared type (use a literal)')
+        x = pos[0]
+        if x.kind == 'ref' and x.ty.cls == 'dict' and not kw:
+            # dict(d): a new dictionary with the same keys, values and insertion order
+            d = ex.new_dict(st, x.ty.key, x.ty.val)
+            st.heap.set_ddom(d.t, h.ddom(x.t))
+            st.heap.set_darrs(d.t, x.ty.val, h.darrs(x.t, x.ty.val))
+            st.heap.set_dorder(d.t, h.dlen(x.t), h.dkeys(x.t))
+            return [(d, st)]
+        raise Unsupported('dict(...) of ' + str(getattr(x, 'ty', x)))
     if name == 'open':
         raise Unsupported('file I/O')
     raise Unsupported(f'call of unknown function {name}')
@@ -257,6 +285,14 @@ class TypeOf:
 
     def __init__(self, v):
         self.v = v
+
+
+class DictView:
+    ty = Ty('meta')
+    kind = 'dictview'
+
+    def __init__(self, d, what):
+        self.d, self.what = d, what
 
 
 class SetOf:
@@ -971,5 +1007,6 @@ def dict_method(ex, d, name, pos, kw, st, fr):
         v = h.dget(d.t, d.ty.val, key)
         return [(join_values(h.ddom(d.t)[key], v, default), st)]
     if name in ('keys', 'items', 'values'):
-        raise Unsupported(f'dict.{name}() outside a for loop')
+        # a view: only `list(view)` (a snapshot in insertion order) is supported outside a for loop
+        return [(DictView(d, name), st)]
     raise Unsupported(f'dict.{name}')
